@@ -335,7 +335,11 @@ impl<'ast> Visit<'ast> for Scan {
         let r = br(e.span());
         match e {
             syn::Expr::While(w) => self.push("while", String::new(), r, Some(br(w.body.span())), Some(br(w.body.span()).start), None),
-            syn::Expr::ForLoop(w) => self.push("for", String::new(), r, Some(br(w.body.span())), Some(br(w.body.span()).start), None),
+            syn::Expr::ForLoop(w) => {
+                self.push("for", String::new(), r, Some(br(w.body.span())), Some(br(w.body.span()).start), None);
+                // `iterable#k`: the iterated expression of the k-th `for` (whatever it is: `&self.0`, a call, a local)
+                self.push("iterable", String::new(), br(w.expr.span()), None, None, None);
+            }
             syn::Expr::Loop(w) => self.push("loop", String::new(), r, Some(br(w.body.span())), Some(br(w.body.span()).start), None),
             syn::Expr::If(w) => self.push("if", String::new(), r, Some(br(w.then_branch.span())), None, None),
             syn::Expr::Match(_) => self.push("match", String::new(), r, None, None, None),
@@ -390,7 +394,10 @@ impl<'ast> Visit<'ast> for Scan {
                 };
                 let body = br(c.body.span());
                 let blk = if let syn::Expr::Block(_) = &*c.body { Some(body.clone()) } else { None };
-                self.push("closure", String::new(), r, blk, Some(hdr_end), Some(body))
+                self.push("closure", String::new(), r, blk, Some(hdr_end), Some(body));
+                // `cparams#k`: the parameter list of the k-th closure (the text between its `|`s); with `expr cparams#k`
+                // a hand-written wrapper can bind its own arguments through the REAL parameter patterns
+                self.push("cparams", String::new(), br(c.or1_token.span()).end..br(c.or2_token.span()).start, None, None, None);
             }
             _ => {}
         }
@@ -705,6 +712,23 @@ fn fingerprint(scan: &Scan, n: &Node) -> String {
     format!("{}|{}|{}", n.kind, n.name, names.join(","))
 }
 
+/// Named anchors (`path sender#2`, `let years#1`, `mcall push`) are mostly leaves: what tells one occurrence from
+/// another is the statement it sits in, so their fingerprint is that of the enclosing statement.
+fn stmt_fingerprint(scan: &Scan, n: &Node) -> String {
+    let mut names: Vec<&str> = vec![];
+    for m in &scan.nodes {
+        if m.range.start >= n.stmt.start && m.range.end <= n.stmt.end {
+            if matches!(m.kind, "let" | "call" | "mcall" | "macro" | "field" | "struct" | "path" | "assign") && !m.name.is_empty() {
+                names.push(&m.name);
+                if names.len() >= 16 {
+                    break;
+                }
+            }
+        }
+    }
+    format!("{}|{}|S:{}", n.kind, n.name, names.join(","))
+}
+
 impl<'a> Gen<'a> {
     /// Resolve a single anchor with fingerprint protection. `cands` = the candidate nodes in pre-order.
     fn pick(&mut self, scan: &Scan, cands: Vec<&Node>, k: usize, named: bool, what: &str, ctx: &str) -> Node {
@@ -714,14 +738,16 @@ impl<'a> Gen<'a> {
         *idx += 1;
         // the ordinal recorded on the tree where the unit last verified supersedes the one written in the unit
         // (the unit text keeps the ordinal of the tree it was written against)
-        let k = if named { k } else { self.recorded.get(&key).map(|r| r.4).unwrap_or(k) };
+        let unique = cands.first().map(|n| matches!(n.kind, "start" | "end")).unwrap_or(false);
+        let k = if unique { k } else { self.recorded.get(&key).map(|r| r.4).unwrap_or(k) };
         let at_k = cands.get(k).copied();
-        if named {
+        if unique {
             return match at_k {
                 Some(n) => n.clone(),
                 None => undecided(&format!("{ctx}: lost anchor `{what}` ({} candidates)", cands.len())),
             };
         }
+        let fingerprint = |scan: &Scan, n: &Node| if named { stmt_fingerprint(scan, n) } else { fingerprint(scan, n) };
         let rec = self.recorded.get(&key).cloned();
         let chosen: &Node = match rec {
             None => match at_k {
